@@ -311,6 +311,33 @@ def malformed_check(acc):
                 continue  # rejected
             if want is None or got != want or type(got) is not type(want):
                 acc.violation(f"toml-native:{opt}:{v}", f"config file line `{opt} = {v}` (a native TOML value) gives {got!r}; the command line `--{opt} {v}` gives {want!r}", {"kind": "malformed"})
+    # plain options (no value grammar of their own) in the config file: a value of the wrong TOML type, or outside the option's choices,
+    # is rejected; it must never be stored as is (a non-empty string where a flag is expected would read as `true`)
+    from dataclasses import fields
+
+    from halmos.config import Config
+
+    byname = {f.name: f for f in fields(Config)}
+    WRONG = {bool: ['"false"', '"true"', "1", "0", '"yes"', "[true]"], int: ['"three"', '"7"', "[1, 2]", "1.5", "true"], str: ["7", "true", "[1]"]}
+    for opt in ("ffi", "early-exit", "symbolic-jump", "cache-solver", "loop", "depth", "width", "solver-threads", "storage-layout", "solver", "function", "contract"):
+        f = byname[opt.replace("-", "_")]
+        for v in WRONG[f.type] + (['"bogus"'] if f.metadata.get("choices") else []):
+            acc.count("malformed_cases")
+            try:
+                got = toml_parser().parse_str(f"[global]\n{opt} = {v}\n").get(f.name)
+            except (SystemExit, Exception):
+                continue  # rejected
+            acc.violation(f"toml-type:{opt}:{v}", f"config file line `{opt} = {v}` is accepted and stored as {got!r} although --{opt} is a {'flag' if f.type is bool else f.type.__name__ + ' option'}"
+                          + (f" with choices {f.metadata['choices']}" if f.metadata.get("choices") else ""), {"kind": "malformed"})
+        # and the well-typed values are kept
+        good = {bool: ("true", True), int: ("3", 3), str: (f'"{(f.metadata.get("choices") or ["abc"])[-1]}"', (f.metadata.get("choices") or ["abc"])[-1])}[f.type]
+        acc.count("malformed_cases")
+        try:
+            got = toml_parser().parse_str(f"[global]\n{opt} = {good[0]}\n").get(f.name)
+        except (SystemExit, Exception) as e:
+            got = f"rejected ({type(e).__name__})"
+        if got != good[1] or type(got) is not type(good[1]):
+            acc.violation(f"toml-type-good:{opt}", f"config file line `{opt} = {good[0]}` gives {got!r}, expected {good[1]!r}", {"kind": "malformed"})
     acc.state("malformed")
 
 
